@@ -1894,8 +1894,20 @@ func (self *LockDB) doExpried(lock *Lock, forcedExpried bool, removeWaited bool)
 
 	if !forcedExpried {
 		if self.status != STATE_LEADER && lock.isAof {
-			if lock.expriedTime <= 0 || self.currentTime-lock.expriedTime < EXPRIED_WAIT_LEADER_MAX_TIME {
-				lock.expriedTime = self.currentTime + 30
+			// wait for the leader's record at most EXPRIED_WAIT_LEADER_MAX_TIME past the hold's own
+			// deadline (expriedTime itself is moved on by every re-arm below)
+			deadline := lock.startTime + int64(lock.command.Expried) + 1
+			if lock.command.ExpriedFlag&protocol.EXPRIED_FLAG_MINUTE_TIME != 0 {
+				deadline = lock.startTime + int64(lock.command.Expried)*60 + 1
+			} else if lock.command.ExpriedFlag&protocol.EXPRIED_FLAG_MILLISECOND_TIME != 0 {
+				deadline = lock.startTime + int64(lock.command.Expried)/1000 + 1
+			}
+			if lock.expriedTime <= 0 || self.currentTime-deadline < EXPRIED_WAIT_LEADER_MAX_TIME {
+				wait := deadline + EXPRIED_WAIT_LEADER_MAX_TIME - self.currentTime
+				if lock.expriedTime <= 0 || wait > 30 {
+					wait = 30
+				}
+				lock.expriedTime = self.currentTime + wait
 				self.AddExpried(lock)
 				lockManager.glock.Unlock()
 				return
